@@ -46,7 +46,7 @@ def run(ctx):
         it_next = [x for x in orw.reach_from([h]) if orw.term[x] and orw.term[x]['k'] == 'call' and (callee_decl(orw.term[x]) or '').endswith('Iterator::next') and loop_headers_containing(orw, x)[:1] == [h]]
         ctx.require(it_next, 'R02.5: iterator of requeue loop')
         OPTION = 'core::option::Option'
-        keys = [k for k, d in _sc(orw, OPTION).items() if d['root'] == orw.term[it_next[0]]['d'][0]]
+        keys = sorted([k for k, d in _sc(orw, OPTION).items() if d['root'] == orw.term[it_next[0]]['d'][0]], key=len)
         ctx.require(keys, 'R02.5: Option of the loop iterator')
         entries, region = orw.arm_entries(OPTION, {'Some'}, keys[0])
         ok, wit = must_pass(orw, entries, sites, exits=[h] + list(orw.returns()))
